@@ -84,6 +84,11 @@ def r1_options_reach_assembler(ctx: Ctx) -> None:
     # the sfc arm's mapping argument lands on assemble's mapping parameter
     asm = ctx.repo.func(PROGRAM, "Program.assemble")
     ctx.check("mapping" in asm.params(), "Program.assemble:mapping-parameter", "the flat-image entry point accepts the address mapping")
+    mapping_applied(ctx)
+
+
+def mapping_applied(ctx: Ctx) -> None:
+    """both file entry points select the requested mapping before they assemble"""
     for q in ("Program.assemble", "Program.assemble_as_patch"):
         fn = ctx.repo.func(PROGRAM, q)
         g = CFG(fn.node)
@@ -309,4 +314,16 @@ def ru_names_bound(ctx: Ctx) -> None:
     names_rule(ctx)
 
 
-RULES = [r1_options_reach_assembler, r2_mapping_choices_total, r3_defines_are_integers, r4_one_pipeline, r5_symbol_file, r6_copier_header_shift, r7_writers_place_blocks, rb_binding_agreement, rm_no_process_lifetime_results, ru_names_bound]
+
+def r8_status_and_mapping_tables(ctx: Ctx) -> None:
+    """what the front ends report and place is what the in-memory assembler decided: the exit status is the assembler's (C14.R2) and the
+    built-in mapping tables the `-m` names select are the textbook ones (C04.R1, C04.R2)"""
+    from .c04 import r1_builtin_maps, r2_mirror_construction
+    from .c14 import r2_entry_point_status
+
+    r2_entry_point_status(ctx)
+    r1_builtin_maps(ctx)
+    r2_mirror_construction(ctx)
+
+
+RULES = [r1_options_reach_assembler, r2_mapping_choices_total, r3_defines_are_integers, r4_one_pipeline, r5_symbol_file, r6_copier_header_shift, r7_writers_place_blocks, r8_status_and_mapping_tables, rb_binding_agreement, rm_no_process_lifetime_results, ru_names_bound]
